@@ -26,7 +26,8 @@ RULE = ("case = (prediction map, reference map, dtype, backend in {None, cc3d, s
         "x 3 backends x {uint8,int16,int64}; quick: a seeded slice); structured random maps up to 6^3 in 1-D/2-D/3-D "
         "(blobs, diagonal segments, touching slabs of different semantic labels, large label values around 2^8/2^16/2^32, "
         "1-D rows with 250..260 components around the uint8/uint16 boundary); malformed stream: signed maps with "
-        "negative labels. non-trivial = at least two foreground voxels in one of the maps")
+        "negative labels; reuse layer: one approximator object per backend choice fed 3-6 pairs of mixed dimensionality, every call judged. "
+        "non-trivial = at least two foreground voxels in one of the maps")
 ASSUMPTIONS = [
     "cc3d.connected_components (default connectivity, multi-label) and scipy.ndimage.label (default structure) are "
     "modelled by Model/CCA.v `adjacent` (Chebyshev-1 with equal label / Manhattan-1), not verified; their C code is "
@@ -112,12 +113,15 @@ def engine_run_text(op, texts):
     return merged
 
 
-def run_impl(pred, ref, bk):
+def run_impl(pred, ref, bk, approx=None):
+    """approx: an approximator object to reuse (reuse layer); default: a fresh one per call"""
     from panoptica import ConnectedComponentsInstanceApproximator
     from panoptica.utils.processing_pair import SemanticPair
     p0, r0 = pred.copy(), ref.copy()
     try:
-        out = ConnectedComponentsInstanceApproximator(cca_backend=_backend(bk)).approximate_instances(SemanticPair(pred, ref))
+        if approx is None:
+            approx = ConnectedComponentsInstanceApproximator(cca_backend=_backend(bk))
+        out = approx.approximate_instances(SemanticPair(pred, ref))
         res = {"status": "ok", "pred": np.asarray(out.prediction_arr), "ref": np.asarray(out.reference_arr),
                "n_pred": out.n_prediction_instance, "n_ref": out.n_reference_instance}
     except AssertionError:
@@ -247,9 +251,9 @@ def judge(case, impl, h, o504, o502p, o502r):
     return viol, dis
 
 
-def evaluate(pred, ref, bk):
+def evaluate(pred, ref, bk, approx=None):
     """single-case slow path (replay, shrinking): returns (violations, impl, model output)"""
-    impl = run_impl(pred, ref, bk)
+    impl = run_impl(pred, ref, bk, approx)
     b504, b502 = Batch(504), Batch(502)
     h = prepare((pred, ref, bk), impl, b504, b502)
     b504.run()
@@ -612,6 +616,7 @@ def run(ctx):
             chunk = []
     large_layer(ctx)
     crop_layer(ctx)
+    reuse_layer(ctx)
     ctx.notes["valid_pairs"] = state["ok"]
     ctx.notes["malformed_pairs_rejected_by_model"] = state["rejected"]
     ctx.notes["model_completeness"] = "total by construction (structural recursion); no None/fuel case exists"
@@ -709,6 +714,60 @@ def cropped_first(pred, ref, bk):
         return {"error": type(e).__name__ + ": " + str(e)[:160]}
 
 
+def reuse_sequence(rng, n):
+    """n semantic pairs of mixed dimensionality with diagonal contacts and touching classes"""
+    seq = []
+    for _ in range(n):
+        nd = rng.choice([1, 2, 2, 3, 3])
+        shape = tuple(rng.randint(2, 4) for _k in range(nd)) if nd > 1 else (rng.randint(3, 8),)
+        size = int(np.prod(shape))
+        a = np.array([rng.choice([0, 0, 1, 1, 2]) for _k in range(size)], "uint8").reshape(shape)
+        b = np.array([rng.choice([0, 1, 1, 2]) for _k in range(size)], "uint8").reshape(shape)
+        seq.append((a, b))
+    return seq
+
+
+def run_reuse(seq, bk, upto=None):
+    """one approximator object fed the pairs of seq in order; every step judged against the model -> (step, violations) of the first bad step"""
+    from panoptica import ConnectedComponentsInstanceApproximator
+    approx = ConnectedComponentsInstanceApproximator(cca_backend=_backend(bk))
+    for i, (a, b) in enumerate(seq if upto is None else seq[:upto + 1]):
+        viol, dis, im, mo = evaluate(a.copy(), b.copy(), bk, approx)
+        if viol or dis:
+            return i, viol, dis
+    return None, [], []
+
+
+def reuse_layer(ctx):
+    """the property holds for every call, not only the first one of an approximator object: one object per backend choice is fed
+    pairs of mixed dimensionality (the default backend depends on the dimensionality of each input) and every output is judged
+    by the proved checker exactly as in the main layers"""
+    rng = ctx.rng
+    for _ in range(ctx.scale(6, 40)):
+        bk = rng.choice([None, None, "cc3d", "scipy"])
+        seq = reuse_sequence(rng, rng.randint(3, 6))
+        step, viol, dis = run_reuse(seq, bk)
+        ctx.count({"reuse": True, "backend": bk, "seq": [[a.tolist(), b.tolist()] for a, b in seq]}, True)
+        ctx.bump(f"reused approximator/{bk or 'default'}/dims " + "-".join(str(a.ndim) for a, _b in seq))
+        if step is None:
+            continue
+        # shorten the history: the shortest suffix-preserving prefix that still fails at the same pair
+        best = seq[:step + 1]
+        for start in range(step, -1, -1):
+            cand = seq[start:step + 1]
+            st2, v2, d2 = run_reuse(cand, bk)
+            if st2 == len(cand) - 1 and (v2 or d2) and len(cand) > 1:
+                best = cand
+                break
+        rp = {"reuse": True, "backend": bk, "seq": [[a, b] for a, b in best]}
+        if viol:
+            ctx.violation(f"approximator object reused: call {len(best)} of one object (inputs of {'-'.join(str(a.ndim) for a, _b in best)} dimensions) "
+                          "is not the connected-component labelling although a fresh object's is: " + "; ".join(v for _k, v in viol)[:300], rp)
+        else:
+            ctx.disagree("reused approximator", rp)
+    ctx.layers.append({"layer": "reused approximator objects", "rule": "one object per backend choice, 3-6 pairs of mixed 1-3 dimensions, every call judged"})
+
+
 def crop_layer(ctx):
     """instances of a pair that was cropped first (crop_data is public API and what evaluate() does) = instances of the pair itself:
     same counts, same foreground sizes, labels 1..n -- for maps embedded at an offset"""
@@ -753,6 +812,22 @@ def replay(path):
             got["fg_pred"] == int((pred != 0).sum()) and got["fg_ref"] == int((ref != 0).sum()) and got["labels_1_to_n"]
         print("agree" if ok else "DIFFER")
         return 0 if ok else 1
+    if d.get("reuse"):
+        seq = [(common.arr_from_json(a), common.arr_from_json(b)) for a, b in d["seq"]]
+        step, viol, dis = run_reuse(seq, d["backend"])
+        print(f"one approximator object (backend {d['backend'] or 'default'}) fed {len(seq)} pairs of dimensions", [a.ndim for a, _b in seq])
+        if step is None:
+            print("every call is the connected-component labelling the model computes\nagree")
+            return 0
+        print(f"call {step + 1}: prediction map\n", seq[step][0], "\nreference map\n", seq[step][1])
+        for _k, v in viol:
+            print("VIOLATED:", v)
+        for x in dis:
+            print("DISAGREE:", x)
+        fresh = evaluate(seq[step][0].copy(), seq[step][1].copy(), d["backend"])
+        print("the same pair on a fresh object:", "agrees with the model" if not fresh[0] and not fresh[1] else "also differs")
+        print("DIFFER")
+        return 1
     if "large_shape" in d:
         shape = tuple(d["large_shape"])
         arr, boxes = block_map(shape, d["k"], d["seed"])
